@@ -479,10 +479,27 @@ class Interp:
             raise IndexOnAbstract(v, step)
         raise Undecided("projection %r" % (step,))
 
+    def _norm_elem(self, st, base, proj):
+        """Constant / concrete indexing into an exactly modelled vector is an element access."""
+        if proj and base[0] == "H" and proj[0][0] in ("ci", "i"):
+            root = st.heap.get(base[1])
+            if root is not None and not isinstance(root, V) and hasattr(root, "items"):
+                step = proj[0]
+                if step[0] == "ci":
+                    n = len(root.items) - step[1] if step[2] else step[1]
+                elif isinstance(step[1], Conc):
+                    n = step[1].v
+                else:
+                    return proj
+                if 0 <= n < len(root.items):
+                    return (("el", n),) + tuple(proj[1:])
+        return proj
+
     def read_path(self, st, base, proj, cur_ty_hint=None):
         v = self.read_base(st, base)
         if ("wrap",) in proj:
             proj = tuple(s_ for s_ in proj if s_ != ("wrap",))
+        proj = self._norm_elem(st, base, proj)
         if not proj:
             return v
         # walk, materialising TOPs on the way (and storing them back so identity persists)
@@ -529,6 +546,7 @@ class Interp:
     def write_path(self, st, base, proj, val):
         if ("wrap",) in proj:
             proj = tuple(s_ for s_ in proj if s_ != ("wrap",))
+        proj = self._norm_elem(st, base, proj)
         if not proj:
             self.write_base(st, base, val)
             return
